@@ -234,8 +234,9 @@ def vmc(
         )
     if continue_from is not None and os.path.isfile(continue_from):
         with h5py.File(continue_from, "r") as hdf:
-            if "configs" in hdf.keys():
-                blockoffset = hdf["block"][-1] + 1
+            nrecorded = hdftools.committed_rows(hdf)
+            if "configs" in hdf.keys() and nrecorded > 0:
+                blockoffset = hdf["block"][nrecorded - 1] + 1
                 configs.load_hdf(hdf)
                 if verbose:
                     print(
